@@ -128,7 +128,7 @@ U("setopt_args", entry="h_setopt_args", func="cfg_setopt", harness="harness/seto
 # ------------------------------------------------------------------ sections
 SECC = dict(remove=["cfg_free", "cfg_dupopt_array", "cfg_init_defaults"], carriers=["carriers/cfg_free.c", "carriers/cfg_dupopt_array.c", "carriers/cfg_init_defaults.c"])
 SECTXT = "7 literal option flag words (MULTI/TITLE/NO_TITLE_DUPES/NOCASE/KEYSTRVAL/DEFINIT) x 2 context flag words; titles 1 byte over all bytes"
-per_count("setopt_sec", counts_quick=(0, 1, 2), counts_thorough=(0, 1, 2), entry="h_setopt_sec", func="cfg_setopt", harness="harness/sections.c",
+per_count("setopt_sec", counts_quick=(0, 1, 2), counts_thorough=(0, 1, 2), entry="h_setopt_sec", func="cfg_setopt", harness="harness/sections.c", replay_by_tag={"C19": "replay/print_layout.c"},
           cbmc=unw(8) + OOM, label="section arm; " + SECTXT + "; any allocation may fail", props=["C01", "C09", "C10", "C07", "C16", "C18", "C06", "C12", "C19", "C11", "C15", "C02"], cost=60, **SECC)
 U("setopt_sec_oom_release", entry="h_setopt_sec_oom_release", func="cfg_setopt", harness="harness/sections.c", defs={"quick": ["-DNV=2"]}, cbmc=unw(8) + OOM + LEAK,
   label="bounded(first titled instance of an empty multi section; any allocation may fail; failing outcomes only; leak check)", props=["C07", "C18", "C02"], cost=10, **SECC)
@@ -246,19 +246,19 @@ U("add_searchpath", entry="h_add_searchpath", func="cfg_add_searchpath", defs={"
 # ------------------------------------------------------------------ printing (C19 C05)
 PRT = dict(harness="harness/print.c", defs={"quick": []})
 PRTRUST = ["fprintf: assumed contract (writes literal text, %s, %c, %ld, %f as C11 specifies); digits of numbers are libc's"]
-U("nprint_str", entry="h_nprint_str", func="cfg_opt_nprint_var (strings)", cbmc=unw(68) + NOOOM, label="bounded(string value <= 3 bytes over all bytes)", props=["C05", "C19", "C02"], cost=10, trusted=PRTRUST,
+U("nprint_str", replay="replay/print_layout.c", entry="h_nprint_str", func="cfg_opt_nprint_var (strings)", cbmc=unw(68) + NOOOM, label="bounded(string value <= 3 bytes over all bytes)", props=["C05", "C19", "C02"], cost=10, trusted=PRTRUST,
   carriers=["carriers/print_carriers.c"], **PRT)
-U("nprint_num", entry="h_nprint_num", func="cfg_opt_nprint_var (numbers, booleans)", cbmc=unw(68) + NOOOM, label="proof (loop-free)", props=["C05", "C19", "C02"], cost=10, trusted=PRTRUST,
+U("nprint_num", replay="replay/print_layout.c", entry="h_nprint_num", func="cfg_opt_nprint_var (numbers, booleans)", cbmc=unw(68) + NOOOM, label="proof (loop-free)", props=["C05", "C19", "C02"], cost=10, trusted=PRTRUST,
   carriers=["carriers/print_carriers.c"], **PRT)
-U("print_opt", entry="h_print_opt", func="cfg_opt_print_pff_indent, cfg_indent", cbmc=unw(68) + NOOOM, remove=["cfg_opt_nprint_var", "cfg_print_pff_indent"],
+U("print_opt", replay="replay/print_layout.c", entry="h_print_opt", func="cfg_opt_print_pff_indent, cfg_indent", cbmc=unw(68) + NOOOM, remove=["cfg_opt_nprint_var", "cfg_print_pff_indent"],
   carriers=["carriers/print_carriers.c"], defs={"quick": ["-DCFGV_CARRY_NPRINT", "-DCFGV_CARRY_PRINTCFG"]},
   label="bounded(14 literal option shapes: type x list/title/annotation flags x <= 3 values; callback / annotation present or absent; depth 0..2)", props=["C19", "C05", "C15", "C02"], cost=60,
   trusted=PRTRUST, harness="harness/print.c")
-U("print_cfg", entry="h_print_cfg", func="cfg_print_pff_indent", cbmc=unw(68) + NOOOM, remove=["cfg_opt_print_pff_indent"], carriers=["carriers/print_carriers.c"],
+U("print_cfg", replay="replay/print_layout.c", entry="h_print_cfg", func="cfg_print_pff_indent", cbmc=unw(68) + NOOOM, remove=["cfg_opt_print_pff_indent"], carriers=["carriers/print_carriers.c"],
   defs={"quick": ["-DCFGV_CARRY_PRINTOPT"]}, label="bounded(<= 3 options; every verdict of own / inherited filter; any depth)", props=["C19", "C02"], cost=20, trusted=PRTRUST, harness="harness/print.c")
-U("print_indent", entry="h_indent", func="cfg_indent", cbmc=unw(68) + NOOOM, label="bounded(depth 0..24)", props=["C19", "C05", "C02"], cost=10, trusted=PRTRUST,
+U("print_indent", replay="replay/print_layout.c", entry="h_indent", func="cfg_indent", cbmc=unw(68) + NOOOM, label="bounded(depth 0..24)", props=["C19", "C05", "C02"], cost=10, trusted=PRTRUST,
   carriers=["carriers/print_carriers.c"], **PRT)
-U("print_hooks", entry="h_print_hooks", func="cfg_opt_set_print_func, cfg_set_print_filter_func", cbmc=unw(68) + NOOOM, label="proof (loop-free)", props=["C19", "C02"], cost=5,
+U("print_hooks", replay="replay/print_layout.c", entry="h_print_hooks", func="cfg_opt_set_print_func, cfg_set_print_filter_func", cbmc=unw(68) + NOOOM, label="proof (loop-free)", props=["C19", "C02"], cost=5,
   carriers=["carriers/print_carriers.c"], **PRT)
 
 U("roundtrip_str", tu="spec", harness="harness/roundtrip.c", entry="h_roundtrip_str", func="lemma: spec_decode_dq(spec_print_str(s)) == s", defs={"quick": ["-DRTN=3"], "thorough": ["-DRTN=4"]},
@@ -302,7 +302,7 @@ U("wrap_getters", entry="h_wrap_getters", func="cfg_getnint, cfg_getint, cfg_get
 U("wrap_setters", entry="h_wrap_setters", func="cfg_setint, cfg_setnint, cfg_setfloat, cfg_setnfloat, cfg_setnbool, cfg_setbool, cfg_setstr, cfg_setnstr, cfg_setcomment, cfg_rmnsec, cfg_rmsec, cfg_rmtsec, cfg_setmulti, cfg_set_print_func",
   cbmc=unw(6) + NOOOM, remove=WSET, carriers=["carriers/cfg_getopt.c", "carriers/wrapper_carriers.c"], label="proof (loop-free wrappers; resolvers and opt-level operations by contract)",
   props=["C09", "C10", "C11", "C14", "C15", "C19", "C07", "C02"], cost=10, **WRAPC)
-U("wrap_print", entry="h_wrap_print", func="cfg_print, cfg_print_indent, cfg_opt_print, cfg_opt_print_indent", cbmc=unw(6) + NOOOM, remove=WSET, carriers=["carriers/cfg_getopt.c", "carriers/wrapper_carriers.c"],
+U("wrap_print", replay="replay/print_layout.c", entry="h_wrap_print", func="cfg_print, cfg_print_indent, cfg_opt_print, cfg_opt_print_indent", cbmc=unw(6) + NOOOM, remove=WSET, carriers=["carriers/cfg_getopt.c", "carriers/wrapper_carriers.c"],
   label="proof (loop-free wrappers; the printers by contract)", props=["C19", "C05", "C02"], cost=5, **WRAPC)
 U("null_opt", entry="h_null_opt", func="cfg_opt_getnint, cfg_opt_getnfloat, cfg_opt_getnbool, cfg_opt_getnstr, cfg_opt_getnptr, cfg_opt_getnsec, cfg_opt_gettsec, cfg_opt_size, cfg_opt_getcomment, cfg_opt_name, cfg_opt_setnint, cfg_opt_setnfloat, cfg_opt_setnbool, cfg_opt_setnstr, cfg_opt_setcomment, cfg_opt_setmulti, cfg_opt_rmnsec, cfg_opt_rmtsec, cfg_free_value, cfg_setopt, call_function",
   cbmc=unw(6) + NOOOM, label="proof (loop-free paths: the NULL option an unknown name resolves to)", props=["C09", "C10", "C14", "C02"], cost=5, **WRAPC)
